@@ -211,12 +211,12 @@ def gen_history(rnd, profile):
         # more rotations under one date than any everyday run sees: the index crosses 9->10, 99->100 and 999->1000 while retention keeps
         # the directory small, with coarse time stamps so that neighbours tie; a restart somewhere on the way
         h.L = rnd.choice([1, 2, 7])
-        h.N = rnd.choice([2, 3, 4, 5, 12])
+        h.N = rnd.choice(profile.get("marathon_N", [2, 3, 4, 5, 12]))
         h.gran_ns = rnd.choice([1000000, 1000000000, 2000000000])
         h.real = False
         h.start_ms = (h.start_ms // DAY_MS) * DAY_MS + 3600000
         h.tz = "UTC"
-        n = rnd.choice([101, 130, 1003, 1030, 1100])
+        n = rnd.choice(profile.get("marathon_n", [101, 130, 1003, 1030, 1100]))
         restart_at = rnd.randint(1, n)
         for rid in range(1, n + 1):
             h.ops.append(("W", rid, record_text(rid, "m" * max(1, h.L)), 0))
@@ -225,6 +225,35 @@ def gen_history(rnd, profile):
             elif rnd.random() < 0.02:
                 h.ops.append(("ADV", rnd.choice([1, 999, 1000, 2500])))
         h.tags.add("marathon")
+        return h
+    if rnd.random() < profile.get("pingpong_p", 0.0):
+        # message dates that go back and forth between two days (messages created on day X are delivered after messages created on day
+        # Y: producers pre-empted around midnight, or a clock that was stepped back), with a restart in between: names of both days keep
+        # being handed out alternately
+        h.L = rnd.choice([7, 20, 64])
+        h.N = rnd.choice([-1, 0, 12])
+        h.options = rnd.choice([4, 5, 4, 5, 0, 1, 2, 3, 6, 7])
+        h.real = False
+        h.tz = "UTC"
+        h.start_ms = (h.start_ms // DAY_MS) * DAY_MS + rnd.choice([3600000, 12 * 3600000])
+        rid = 0
+        def burst_w(k, lag):
+            nonlocal rid
+            for _ in range(k):
+                rid += 1
+                h.ops.append(("W", rid, record_text(rid, "p" * rnd.randint(1, h.L)), lag))
+        burst_w(rnd.randint(4, 12), 0)                  # day X: a handful of rotated files
+        h.ops.append(("ADV", DAY_MS))
+        burst_w(rnd.randint(1, 3), 0)                   # day Y: one or two
+        if rnd.random() < 0.85:
+            h.ops.append(("RESTART",))
+        for _ in range(rnd.randint(1, 4)):
+            burst_w(rnd.randint(1, 3), 0)               # Y again ...
+            burst_w(rnd.randint(2, 6), -DAY_MS)         # ... and messages still dated X, delivered after younger ones
+            if rnd.random() < 0.2:
+                h.ops.append(("RESTART",))
+        h.tags.add("pingpong")
+        h.tags.add("lag")
         return h
     n_ops = rnd.randint(*profile.get("n_ops", (5, 60)))
     rid = 0
@@ -496,6 +525,11 @@ class Analysis:
                     why = "retention-removed-earlier" if prev_removed and prev_removed[-1]["cause"] == "retention" else "other"
                     self.add("C09", "C09:name-reused:" + why, "rotated name %s used again (earlier holder created at %s, removed at %s)"
                              % (b, prior[-1]["created"] if prior else "?", prior[-1]["removed"] if prior else "still present"), op)
+                for pe in prior:
+                    # an earlier holder of this name that is still there is replaced by the rename: what it held is gone
+                    if pe["removed"] is None and pe["name"] == b:
+                        pe["removed"] = op
+                        pe["cause"] = "overwritten"
                 self.names_ever.setdefault(b, []).append(ent)
                 self.entries.append(ent)
                 self.by_name[b] = ent
@@ -566,6 +600,12 @@ class Analysis:
             if (ev["n"] & O_TRUNC) and "snap" in ev and len(ev["snap"]) > 0:
                 if a == self.h.fname or a in self.by_name:
                     self.lost.append((a, bytes.fromhex(ev["snap"]), op, "truncated"))
+                    if a in self.by_name and self.by_name[a]["created"] != op:
+                        # a rotated file of an earlier rotation is opened for overwriting (the compressed copy of a later rotation that
+                        # was given the same name): its records no longer exist anywhere
+                        pe = self.by_name.pop(a)
+                        pe["removed"] = op
+                        pe["cause"] = "overwritten"
                 elif a in self.foreign:
                     self.add("C06", "C06:foreign-file-truncated", "foreign file %s truncated" % a, op)
 
@@ -647,6 +687,8 @@ class Analysis:
         for ent in self.entries:
             if ent["content"] is None:
                 continue
+            if ent["cause"] == "overwritten":
+                continue        # not removed by retention: replaced by a later file of the same name - its records are in no file
             ids, partial, err = self.parse(ent["content"])
             if err or partial:
                 self.add("C05", "C05:framing-rotated", "rotated %s: %s" % (ent["orig"], err or "ends inside a record"), op)
@@ -673,6 +715,8 @@ class Analysis:
         if missing:
             cause = "unknown"
             for nm, data, lop, c in self.lost:
+                if nm.endswith(".gz"):
+                    data = self.decode(nm, data, op, report=False) or b""
                 if set(self.parse(data)[0]) & set(missing):
                     cause = c
                     break
